@@ -751,11 +751,6 @@ class MatchForms(Entry):
             ]
             B = 2 ** 53
             hand += [
-                {"kind1": "u8", "kind2": "i8", "a1": [B + 2, 5, B], "a2": [B, -1, B + 2, 5, B + 4], "family": "mixed-sign-64/outside-class"},
-                {"kind1": "i8", "kind2": "u8", "a1": [-B, 5, B], "a2": [B, 2**63, 5], "presorted": True, "family": "mixed-sign-64/outside-class/presorted"},
-                {"kind1": "u8", "kind2": "i8", "a1": [2**64 - 2048, 2**63, 7], "a2": [7, 2**63 - 1024, -2**63], "multi": True, "family": "mixed-sign-64/outside-class/multi"},
-                {"kind1": "u8", "kind2": "i1", "a1": [2**64 - 1, 7, 2**63 + 1], "a2": [7, -1, 8], "family": "mixed-sign-64/in-class"},
-                {"kind1": "u8", "kind2": "i8", "a1": [B, 3], "a2": [B + 1], "family": "mixed-sign-64/in-class"},
                 # int against float beyond 2^53: numpy's == of the pair is equality of the promoted doubles
                 {"kind1": "i8", "kind2": "f8", "a1": [B + 1, 7], "a2": [h(2.0**53), h(7.0), h(2.0**53 + 2)], "family": "hand-mixed/beyond-2p53"},
                 {"kind1": "f8", "kind2": "i8", "a1": [h(2.0**53), h(7.0)], "a2": [B + 1, 7, B, B + 2], "family": "hand-mixed/beyond-2p53"},
@@ -772,8 +767,6 @@ class MatchForms(Entry):
             cs.append(gen_forms_case(r))
         for _ in range(n // 3):
             cs.append(gen_empty_case(r))
-        for _ in range(n + n // 2):
-            cs.append(gen_mixed_sign64_case(r))
         return cs
 
     def impl(self, c):
@@ -833,7 +826,59 @@ class MatchForms(Entry):
         return "show_match %s %s %s %s %s" % (o, cbool(bool(c["presorted"])), cbool(c["multi"]), t1, t2)
 
 
-FLAG_STYLES = ["int-ties", "int-wide", "float", "constant", "increasing", "decreasing", "bool", "u1", "i1-neg", "plateau"]
+MIXED64_CASES = {}
+
+
+class MatchMixed64(MatchForms):
+    """uint64 against a signed integer kind (numpy promotes the pair to float64 inside searchsorted): the promoted model,
+    the FULL statement as checker; failing cases of the known class C06.kf_mixed_sign_above_2p53 are classified.  An entry
+    of its own: the runner reports pure disagreements of an entry only when the entry has no failing case."""
+    name = "match_mixed64"
+
+    def cases(self, ctx, round=0):
+        r = ctx.rng
+        cs = []
+        if round == 0:
+            B = 2 ** 53
+            base = {"presorted": False, "form1": "array", "form2": "array", "multi": False}
+            hand = [
+                {"kind1": "u8", "kind2": "i8", "a1": [B + 2, 5, B], "a2": [B, -1, B + 2, 5, B + 4], "family": "mixed-sign-64/outside-class"},
+                {"kind1": "i8", "kind2": "u8", "a1": [-B, 5, B], "a2": [B, 2**63, 5], "presorted": True, "family": "mixed-sign-64/outside-class/presorted"},
+                {"kind1": "u8", "kind2": "i8", "a1": [2**64 - 2048, 2**63, 7], "a2": [7, 2**63 - 1024, -2**63], "multi": True, "family": "mixed-sign-64/outside-class/multi"},
+                {"kind1": "u8", "kind2": "i1", "a1": [2**64 - 1, 7, 2**63 + 1], "a2": [7, -1, 8], "family": "mixed-sign-64/in-class"},
+                {"kind1": "u8", "kind2": "i8", "a1": [B, 3], "a2": [B + 1], "family": "mixed-sign-64/in-class"},
+            ]
+            cs += [dict(base, **c) for c in hand]
+        for _ in range(ctx.n(140, 1400) if round == 0 else ctx.n(80, 400)):
+            cs.append(gen_mixed_sign64_case(r))
+        MIXED64_CASES[round] = [dict(c) for c in cs]
+        return cs
+
+
+class MatchMixed64Agree(MatchMixed64):
+    """the same cases (plus the corpus witnesses), judged ONLY on model = implementation: inside the known class the
+    implementation must do exactly what the promoted model predicts (C06_match_mixed_exact), and a deviation there must not be
+    masked by the known failing cases of the sibling entry"""
+    name = "match_mixed64_agree"
+
+    def cases(self, ctx, round=0):
+        from ..runner import corpus_cases
+        cs = [dict(c) for c in MIXED64_CASES.get(round) or MatchMixed64.cases(self, ctx, round)]
+        if round == 0:
+            cs = [dict(c, family="corpus-agree") for c in corpus_cases(ctx.pid, "match_mixed64")] + cs
+        for c in cs:
+            c["entry"] = self.name
+        return cs
+
+    def term(self, c, out):
+        return "(Z.land (%s) 1)" % MatchForms.term(self, c, out)
+
+    def classify(self, c, out, verdict):
+        return None
+
+
+FLAG_STYLES = ["int-ties", "int-wide", "float", "constant", "increasing", "decreasing", "bool", "u1", "i1-neg", "plateau", "u8-extreme",
+               "i8-extreme"]
 
 
 def gen_flags2(r, n):
@@ -845,6 +890,10 @@ def gen_flags2(r, n):
         return "u1", [r.choice([0, 1, 254, 255, 128]) for _ in range(n)]
     if st == "i1-neg":
         return "i1", [r.choice([-128, -1, 0, 1, 127]) for _ in range(n)]
+    if st == "u8-extreme":       # unsigned flags around 0 / 2^63 / 2^64-1 (negating or casting them wraps)
+        return "u8", [r.choice([0, 1, 2**63 - 1, 2**63, 2**63 + 1, 2**64 - 2, 2**64 - 1]) for _ in range(n)]
+    if st == "i8-extreme":       # iinfo.min has no negative
+        return "i8", [r.choice([-2**63, -2**63 + 1, -1, 0, 1, 2**63 - 2, 2**63 - 1]) for _ in range(n)]
     if st == "plateau":          # several indices share the largest flag: the tie rule decides
         return "i8", [r.choice([3, 3, 3, 1]) for _ in range(n)]
     fl = gen_flags(r, n) if st in ("int-ties", "int-wide", "float", "constant", "increasing", "decreasing") else [0] * n
@@ -1061,7 +1110,7 @@ def gen_history_case(r, quick=True):
                 if st["op"] == "replace":
                     if dt == "f8":
                         st["flags"] = [float(r.choice([r.uniform(-3, 3), r.randrange(-2, 3) / 2.0, 0.0, -0.0])).hex() for _ in D]
-                    elif dt in ("?", "u1", "i1"):
+                    elif dt in ("?", "u1", "i1", "u8"):
                         st["flags"] = [r.randrange(0, 2) for _ in D]
                     else:
                         st["flags"] = [r.choice([r.randrange(-2, 3), 3, 3]) for _ in D]
@@ -1259,7 +1308,7 @@ class History(Entry):
         return None
 
 
-ENTRIES = [Match(), MatchMulti(), MatchForms(), Unique(), UniqueValues(), UniqueCall(), RemDup(), RemDupValues(), RemDupCall(), History()]
+ENTRIES = [Match(), MatchMulti(), MatchForms(), MatchMixed64(), MatchMixed64Agree(), Unique(), UniqueValues(), UniqueCall(), RemDup(), RemDupValues(), RemDupCall(), History()]
 
 TRUSTED = [
     "Coq 8.16.1 kernel (coqc, vm_compute; no native_compute); all C06 theorems are closed under the global context (no axioms)",
